@@ -170,8 +170,13 @@ func (c *Ctx) Note(format string, a ...any) {
 func (c *Ctx) Finish(evaluations, distinctNontrivial int, rule string, samples []any) int {
 	defer c.WS.Close()
 	wall := time.Since(c.Start).Seconds()
-	os.MkdirAll(filepath.Join(sut.VerifDir, "replays"), 0o755)
-	os.MkdirAll(filepath.Join(sut.VerifDir, "evidence"), 0o755)
+	outDir := sut.VerifDir
+	if sh := os.Getenv("VERIF_REPO_SHADOW"); sh != "" {
+		// a seeded-change trial: its evidence and replays are not the repository's
+		outDir = filepath.Join(sh, "_verif_out")
+	}
+	os.MkdirAll(filepath.Join(outDir, "replays"), 0o755)
+	os.MkdirAll(filepath.Join(outDir, "evidence"), 0o755)
 
 	// known findings: a line per listed finding that was observed
 	sigs := make([]string, 0, len(c.knownHits))
@@ -205,7 +210,7 @@ func (c *Ctx) Finish(evaluations, distinctNontrivial int, rule string, samples [
 		}
 		bySig[f.Sig()] = true
 		n++
-		path := filepath.Join(sut.VerifDir, "replays", fmt.Sprintf("%s-%d-%d.json", c.Prop, c.Seed, n))
+		path := filepath.Join(outDir, "replays", fmt.Sprintf("%s-%d-%d.json", c.Prop, c.Seed, n))
 		b, _ := json.MarshalIndent(map[string]any{"property": c.Prop, "tier": c.Tier, "seed": c.Seed, "signature": f.Sig(), "finding": f}, "", " ")
 		os.WriteFile(path, b, 0o644)
 		fmt.Printf("VIOLATION property=%s replay=%s\n", c.Prop, path)
@@ -252,7 +257,7 @@ func (c *Ctx) Finish(evaluations, distinctNontrivial int, rule string, samples [
 		"assumptions": append([]string{"verdict reads: held on the executions that were observed; nothing is proved"}, c.Assumptions...),
 	}
 	b, _ := json.MarshalIndent(ev, "", " ")
-	os.WriteFile(filepath.Join(sut.VerifDir, "evidence", c.Prop+".json"), b, 0o644)
+	os.WriteFile(filepath.Join(outDir, "evidence", c.Prop+".json"), b, 0o644)
 
 	fmt.Printf("%s tier=%s seed=%d: evaluations=%d distinct_nontrivial=%d violations=%d known=%d inconclusive=%d wall=%.1fs\n",
 		c.Prop, c.Tier, c.Seed, evaluations, distinctNontrivial, len(c.violations), len(sigs), len(c.Inconclusive), wall)
